@@ -77,7 +77,9 @@ TW = ['Defn', 'tw', 1, [1, ' and ', 1], None, 'newcommand']
 DQ = ['Defn', 'dq', 2, ['[', 2, '|', 1, ']'], None, 'def']
 ZERO = ['Defn', 'zero', 0, ['Nil'], None, 'newcommand']
 DROP = ['Defn', 'drop', 2, ['(', 2, ')'], None, 'newcommand']
-DEFS = [FOO, FOP, TW, DQ, ZERO, DROP]
+FT2 = ['Defn', 'ftwo', 1, ['See', ['foot', 'first note'], ' ', 1, ['foot', 'second note']], None,
+       'newcommand']
+DEFS = [FOO, FOP, TW, DQ, ZERO, DROP, FT2]
 PREAMBLE = ['cat'] + [['defnode', d] for d in DEFS] + [['newtheorem'], ['glsdefs'], '\n']
 
 # constructs without a text child
@@ -88,6 +90,11 @@ INLINES = {
     'vphantom': ['vphantom', T('q')],
     'comment': ['comment', ' cmt'],
     'skip': ['skip_region'],
+    'comment_skip': ['cat', ['comment', ' cmt'], ['skip_region'], T('Vis')],
+    'text_comment_skip': ['cat', T('Vis '), ['comment', 'c'], ['skip_region', 'q \\zz\n% inner comment'], T('Vis')],
+    'macro_defines_macro': ['cat', ['G', '\\newcommand{\\defterm}[2]{\\newcommand{#1}{#2 (defined term)}}', None],
+                            ['G', '\\defterm{\\foox}{Foo}', None], '\n', ['G', '\\foox', 'Foo\\(definedterm\\)'],
+                            ' ', T('mid'), ' ', ['G', '\\foox', 'Foo\\(definedterm\\)']],
     'tikz': ['removed_env'],
     'ref': ['ref'],
     'pageref': ['ref', 'kz', 'pageref'],
@@ -158,13 +165,14 @@ WRAPPERS = {
     'twice': lambda c: ['call', TW, c],
     'def': lambda c: ['call', DQ, c, T('Two')],
     'drop': lambda c: ['call', DROP, T('gone'), c],
+    'ftwo': lambda c: ['call', FT2, c],
     'cite_optarg': lambda c: ['cite', 'kq', c],
 }
 # wrappers whose child must be "simple" (no paragraph material, no detached flows)
 SIMPLE_CHILD = {'section', 'subsection*', 'chapter_opt', 'theorem_opt', 'proof_opt', 'cite_optarg',
                 'fop_optarg', 'href'}
 # inlines that must not stand inside an argument (TeX: verbatim material, comments eat the brace)
-TOPLEVEL_ONLY = {'verb', 'verb2', 'verb_dollar', 'verb_braces', 'verb_pct', 'comment', 'skip', 'tikz'}
+TOPLEVEL_ONLY = {'comment_skip', 'text_comment_skip', 'macro_defines_macro', 'verb', 'verb2', 'verb_dollar', 'verb_braces', 'verb_pct', 'comment', 'skip', 'tikz'}
 # wrappers that lose text by design (argument dropped): children hidden -> not wrappers of flows
 SEPS = [' ', '\n', '', ' \n  ', '\n\n']
 OPTS = {'pack': '*'}
@@ -195,8 +203,14 @@ def pairs(seed, limit=None):
     rnd.shuffle(allp)
     for (k1, n1), (k2, n2), si in allp:
         sep = SEPS[si]
-        if sep == '' and (n1 in ('unknown0', 'zero') or n1 == 'comment'):
-            pass
+        if sep == '':
+            # glued constructs must not form a different token sequence ($$, ---, \\zeroVis)
+            import re as _re
+            s1 = build(mk(k1, n1, ATOMS[0])).src
+            s2 = build(mk(k2, n2, ATOMS[1])).src
+            if (_re.search(r'\\[A-Za-z]+$', s1) and s2[:1].isalpha()) or (
+                    s1[-1:] in "$-`'" and s2[:1] == s1[-1:]) or s1[-1:] == '\\':
+                continue
         out.append(('pair:%s+%s/%d' % (n1, n2, si),
                     doc(mk(k1, n1, ATOMS[0]), sep, mk(k2, n2, ATOMS[1]))))
         if limit and len(out) >= limit:
@@ -230,7 +244,10 @@ def nestings(seed, limit=None, depth=1):
     # order of a detached flow nested in another detached flow, and the multiplicity of a
     # footnote inside a twice-used argument, are left open by the properties: not generated
     det = {'footnote', 'caption'}
-    combos = [c for c in combos if not (c[2] in det and c[0] in det | {'twice'})]
+    combos = [c for c in combos if not (c[2] in det and c[0] in det)]
+    # (the same for a macro whose body holds footnotes)
+    combos = [c for c in combos if not ('ftwo' in (c[0], c[2]) and
+                                        (c[0] in det | {'ftwo', 'twice'} and c[2] in det | {'ftwo'}))]
     # children most likely to interact with the enclosing construct come first
     prio = {'lbrace', 'pct', 'math', 'math_p', 'footnote', 'label', 'cite_opt', 'accent',
             'twice', 'foo1', 'linebreak', 'emdash'}
